@@ -290,7 +290,7 @@ fn proto_vec(c: &Value, rep: &mut Report, perturb: usize) -> Mis {
             let op = &ops[k - 1];
             let name = op[0].as_str().expect("op name");
             let j = ji(&op[1]) as usize;
-            who = format!("vec:{}", match name { "p" => "predict", "u" => "update", _ => "distance" });
+            who = format!("vec:{}", match name { "p" => "predict", "u" => "update", "r" => "reinitiate-one-point", _ => "distance" });
             st = ji(&stat[k - 1]) == 1;
             zero = ji(&dzero[k - 1]) == 1;
             match name {
@@ -305,6 +305,12 @@ fn proto_vec(c: &Value, rep: &mut Report, perturb: usize) -> Mis {
                 "d" => {
                     vd = vf.distance(&vs, sets[j - 1].as_slice());
                     pd = ps.iter().zip(sets[j - 1].iter()).map(|(s, p)| pf.distance(s, p)).collect();
+                }
+                "r" => {
+                    // one element of the state vector gets a fresh history; the others keep theirs
+                    let fresh = vf.initiate(&sets[j - 1][0..1]);
+                    vs[0] = fresh[0];
+                    ps[0] = pf.initiate(&sets[j - 1][0]);
                 }
                 o => panic!("op {}", o),
             }
